@@ -368,36 +368,54 @@ theorem purge_confined (st : St) :
   · exact ⟨rfl, rfl, fun e h => h, fun e h _ => h⟩
   · exact ⟨rfl, rfl, purge_fold_sub _ _, purge_fold_keep _ _⟩
 
-/-! ### a restore can pick a different dropped database than the one named -/
+/-! ### which dropped copy a restore selects -/
 
-/-- The natural reading of the property — `dolt_undrop(n)` restores the dropped database called
-exactly `n` whenever there is one — as a statement. -/
-def undrop_exact_name_full : Prop :=
-  ∀ (st : St) (n : Name), n ∈ children st.fs [holding] → (undropDb st n).2 = .ok () →
-    (n, [n]) ∈ (undropDb st n).1.live
+theorem find_exact {cands : List Name} {n : Name} (h : n ∈ cands) : cands.find? (fun s => s == n) = some n := by
+  induction cands with
+  | nil => cases h
+  | cons x xs ih =>
+    rw [List.find?_cons]
+    by_cases hx : x = n
+    · subst hx; simp
+    · have : (x == n) = false := by simpa using hx
+      rw [this]
+      cases h with
+      | head => exact absurd rfl hx
+      | tail _ h' => exact ih h'
 
-def witnessOps (st : St) : St :=
-  let s1 := (createDb st (bytes "dbx") 1).1
-  let s2 := (dropDb s1 (bytes "dbx") 5).1
-  let s3 := (createDb s2 (bytes "DBX") 2).1
-  (dropDb s3 (bytes "DBX") 6).1
+theorem find_exact_none {cands : List Name} {n : Name} (h : n ∉ cands) : cands.find? (fun s => s == n) = none := by
+  rw [List.find?_eq_none]
+  intro x hx hxn
+  have : x = n := by simpa using hxn
+  subst this
+  exact h hx
 
-def witness : St := witnessOps { fs := [], live := [] }
+theorem eqFold_refl (n : Name) : eqFold n n = true := by simp [eqFold]
 
-/-- **It is false** (and so is the implementation: the harness replays this witness on the real
-code on every run, key `undrop-wrong-case-copy`).  With dropped databases `DBX` and `dbx` both in
-the holding directory, `dolt_undrop('dbx')` restores `DBX`: `hasCaseInsensitiveMatch` takes the
-first case-insensitive match in directory order and never prefers the exact name.  `dbx` itself
-then cannot be restored through SQL while a database `DBX` exists, live or dropped. -/
-theorem undrop_exact_name_false : ¬ undrop_exact_name_full := by
-  intro h
-  have := h witness (bytes "dbx") (by decide) (by decide)
-  revert this
-  decide
+/-- the selection rule of the repaired `hasCaseInsensitiveMatch` -/
+theorem select_rule (cands : List Name) (n : Name) :
+    (n ∈ cands → firstFoldMatch cands n = some n) ∧
+    (n ∉ cands → firstFoldMatch cands n = cands.find? (fun s => eqFold n s)) := by
+  constructor
+  · intro h; simp [firstFoldMatch, find_exact h]
+  · intro h; simp [firstFoldMatch, find_exact_none h]
 
-/-- what does hold: the restored database is the *first* entry of the holding directory, in
-ascending name order, whose case-folded name matches -/
-theorem undrop_selects_first_fold_match {st : St} {n : Name} (h : (undropDb st n).2 = .ok ()) :
+theorem select_folds {cands : List Name} {n ex : Name} (h : firstFoldMatch cands n = some ex) :
+    eqFold n ex = true ∧ ex ∈ cands := by
+  unfold firstFoldMatch at h
+  split at h
+  · rename_i s hs
+    cases h
+    have := List.find?_some hs
+    have hm := List.mem_of_find?_eq_some hs
+    have : ex = n := by simpa using this
+    subst this
+    exact ⟨eqFold_refl _, hm⟩
+  · have := List.find?_some h
+    exact ⟨by simpa using this, List.mem_of_find?_eq_some h⟩
+
+/-- what a successful `dolt_undrop(n)` registers: the selected entry of the holding directory -/
+theorem undrop_selects {st : St} {n : Name} (h : (undropDb st n).2 = .ok ()) :
     ∃ fs1 exact, initHolding st.fs = .ok fs1 ∧ firstFoldMatch (children fs1 [holding]) n = some exact ∧
       eqFold n exact = true ∧ (exact, [exact]) ∈ (undropDb st n).1.live := by
   cases hA : initHolding st.fs with
@@ -406,9 +424,7 @@ theorem undrop_selects_first_fold_match {st : St} {n : Name} (h : (undropDb st n
     cases hm : firstFoldMatch (children fsA [holding]) n with
     | none => simp [undropDb, validateUndrop, hA, hm] at h
     | some ex =>
-      have hfold : eqFold n ex = true := by
-        have := List.find?_some hm
-        simpa using this
+      have hfold : eqFold n ex = true := (select_folds hm).1
       by_cases hc : (children fsA []).any (fun x => eqFold x ex) = true
       · simp [undropDb, validateUndrop, hA, hm, hc] at h
       · cases hmv : moveDir fsA [holding, ex] [ex] with
@@ -418,9 +434,53 @@ theorem undrop_selects_first_fold_match {st : St} {n : Name} (h : (undropDb st n
           · exact ⟨fsA, ex, rfl, hm, hfold, by simp [undropDb, validateUndrop, hA, hm, hc, hmv, hdir]⟩
           · simp [undropDb, validateUndrop, hA, hm, hc, hmv, hdir] at h
 
+/-- **undrop_exact_name.**  Whenever the holding directory has an entry called exactly `n`, a
+successful `dolt_undrop(n)` restores *that* dropped database — whatever other dropped databases
+with the same case-folded name exist (this was false before dolt commit 5f0cdf2; the former
+refuting witness is now the regression case corpus/C47/wrong-case-copy.json). -/
+theorem undrop_exact_name {st : St} {n : Name} {fs1 : FS} (hinit : initHolding st.fs = .ok fs1)
+    (hmem : n ∈ children fs1 [holding]) (h : (undropDb st n).2 = .ok ()) :
+    (n, [n]) ∈ (undropDb st n).1.live := by
+  obtain ⟨fsA, ex, hA, hm, _, hl⟩ := undrop_selects h
+  rw [hinit] at hA
+  cases hA
+  rw [(select_rule _ n).1 hmem] at hm
+  cases hm
+  exact hl
+
+/-- **undrop_fold_only.**  When no dropped database is called exactly `n`, `dolt_undrop(n)` restores
+the first entry of the holding directory, in ascending byte order of the names, whose case-folded
+name equals that of `n` (so with `DBX` and `Dbx` both dropped, `dolt_undrop('dbx')` restores `DBX`);
+it is a case-insensitive match and it is one of the dropped databases. -/
+theorem undrop_fold_only {st : St} {n : Name} {fs1 : FS} (hinit : initHolding st.fs = .ok fs1)
+    (hno : n ∉ children fs1 [holding]) (h : (undropDb st n).2 = .ok ()) :
+    ∃ ex, (children fs1 [holding]).find? (fun s => eqFold n s) = some ex ∧ ex ≠ n ∧
+      (ex, [ex]) ∈ (undropDb st n).1.live := by
+  obtain ⟨fsA, ex, hA, hm, _, hl⟩ := undrop_selects h
+  rw [hinit] at hA
+  cases hA
+  rw [(select_rule _ n).2 hno] at hm
+  refine ⟨ex, hm, ?_, hl⟩
+  intro he
+  subst he
+  exact hno (List.mem_of_find?_eq_some hm)
+
+def witnessOps (st : St) : St :=
+  let s1 := (createDb st (bytes "dbx") 1).1
+  let s2 := (dropDb s1 (bytes "dbx") 5).1
+  let s3 := (createDb s2 (bytes "DBX") 2).1
+  (dropDb s3 (bytes "DBX") 6).1
+
+/-- dropped: `DBX` (incarnation 2) and `dbx` (incarnation 1) -/
+def witness : St := witnessOps { fs := [], live := [] }
+
 /-! ### non-vacuity -/
 
-example : (undropDb witness (bytes "dbx")).1.live = [((bytes "DBX"), [(bytes "DBX")])] := by decide
+/-- the former counterexample: the exactly named copy comes back -/
+example : (undropDb witness (bytes "dbx")).1.live = [((bytes "dbx"), [(bytes "dbx")])] := by decide
+
+/-- fold-only request: the first entry in byte order -/
+example : (undropDb witness (bytes "Dbx")).1.live = [((bytes "DBX"), [(bytes "DBX")])] := by decide
 
 example : let s1 := (createDb { fs := [], live := [] } (bytes "dbx") 1).1
           let s2 := (dropDb s1 (bytes "DBX") 5).1
